@@ -918,6 +918,17 @@ func runnerGen(out *hx.Out, seed uint64, n int, roles []string) {
 						s.deliver(own(k, S))
 					}
 				}
+				if r.Chance(1, 2) { // the duty decides first (certificate or the full honest round)
+					if r.Chance(1, 2) {
+						for _, k := range order {
+							if T[k].MsgType == spectypes.SSVConsensusMsgType {
+								s.deliver(own(k, S))
+							}
+						}
+					} else if kd := decidedIndex(role, S); kd >= 0 {
+						s.deliver(own(kd, S))
+					}
+				}
 				for j := uint64(1); j <= uint64(1+r.Intn(3)); j++ {
 					s.deliver(msgRef{kind: "D", trRole: role, height: S + j, valKind: fmt.Sprintf("good:%d", S), signers: 3, asRole: role, ownPK: true})
 				}
